@@ -4,6 +4,8 @@ pub mod c01real;
 pub mod c02;
 pub mod c08;
 pub mod c09;
+pub mod c10;
+pub mod c17;
 pub mod c18;
 
 /// returns (level, rule text) of the check that ran
@@ -13,6 +15,8 @@ pub fn run(ctx: &Ctx) -> Option<(&'static str, &'static str)> {
         "C02" => Some(c02::run(ctx)),
         "C08" => Some(c08::run(ctx)),
         "C09" => Some(c09::run(ctx)),
+        "C10" => Some(c10::run(ctx)),
+        "C17" => Some(c17::run(ctx)),
         "C18" => Some(c18::run(ctx)),
         _ => None,
     }
